@@ -565,6 +565,74 @@ def gen_net(rng, hier=False, cyc=False):
     return case
 
 
+def gen_wide(rng):
+    """Wide family (C04): 129..300 independent pass-through models (more than one injector bucket of
+    128 tasks on the multi-threaded executor), every one receiving an event due at the same time; some
+    forward to the next model as well.  Multiset mode."""
+    n = rng.choice([129, 130, 160, 200, 257, 300])
+    models = []
+    for i in range(n):
+        conns = [("all", 0, ("s", 0))]
+        if i + 1 < n and rng.random() < 0.1:
+            conns.append(("all", 1000, ("m", i + 1, 0)))
+        models.append({"cap": rng.choice([1, 2, 4]), "handlers": [[("snd", 0, "in")], [], []], "repliers": [], "outs": [conns],
+                       "reqs": [], "init": []})
+    case = {"models": models, "sinks": [("buf", 8192)], "mode": "multiset", "tags": {"net", "wide"}, "threads": 1, "t0": 0,
+            "clock": [], "sources": []}
+    cmds, val = [], 0
+    for r in range(rng.randint(1, 3)):
+        t = 10 * (r + 1)
+        for m in range(n):
+            if rng.random() < 0.95:
+                val += 1
+                cmds.append(("se", ("a", t), m, 0, val, None, None))
+        cmds.append(("st",))
+        cmds.append(("rs", 0))
+    val += 1
+    cmds.append(("pe", rng.randrange(n), 0, val))
+    cmds.append(("rs", 0))
+    case["cmds"] = cmds
+    return case
+
+
+def gen_nested(rng):
+    """C19 family: handlers build, run and drop a NESTED simulation (1..3 threads, 1..4 models) before
+    going on; the enclosing simulation (2..6 models) must be unaffected, and when it is dropped at the
+    end of the bench every one of its models must be dropped exactly once.  Multiset mode."""
+    n = rng.randint(2, 6)
+    models = []
+    for i in range(n):
+        ops = []
+        if rng.random() < 0.6:
+            ops.append(("nst", rng.choice([1, 2, 2, 3]), rng.randint(1, 4)))
+        ops.append(("snd", 0, "in"))
+        if rng.random() < 0.3:
+            ops.append(("nst", rng.choice([1, 2, 2, 3]), rng.randint(1, 4)))
+        conns = [("all", 0, ("s", 0))]
+        if i + 1 < n and rng.random() < 0.4:
+            conns.append(("all", 1000, ("m", i + 1, rng.randrange(2))))
+        init = [("nst", rng.choice([1, 2]), rng.randint(1, 3))] if rng.random() < 0.2 else []
+        models.append({"cap": rng.choice([1, 2, 4]), "handlers": [ops, [("snd", 0, "in")], []], "repliers": [], "outs": [conns],
+                       "reqs": [], "init": init})
+    if not any(o[0] == "nst" for m in models for o in m["handlers"][0]):
+        models[0]["handlers"][0].insert(0, ("nst", 2, n))
+    case = {"models": models, "sinks": [("buf", 4096)], "mode": "multiset", "tags": {"net", "nested"}, "threads": 1, "t0": 0,
+            "clock": [], "sources": []}
+    cmds, val = [], 0
+    for r in range(rng.randint(1, 3)):
+        t = 10 * (r + 1)
+        for m in range(n):
+            if rng.random() < 0.7:
+                val += 1
+                cmds.append(("se", ("a", t), m, 0, val, None, None))
+        cmds.append(("st",))
+    val += 1
+    cmds.append(("pe", rng.randrange(n), 0, val))
+    cmds.append(("rs", 0))
+    case["cmds"] = cmds
+    return case
+
+
 def gen_deadlock(rng):
     """C06 family: query loop-backs (direct, transitive, in sub-models), saturating event loops that
     deadlock deterministically (a model that sends itself capacity+1 events from one handler), orphan
